@@ -227,13 +227,40 @@ raises; `remove(0)` raises, only the threshold-40 handler remains – and a lazy
 evaluates its argument although no registered handler admits it.  With the real `remove` it does not. -/
 theorem late_min_level_update_refuted :
     let orc : Oracle := fun _ _ _ => true
-    let c0 := final orc Core.init [.add ⟨.int 10, .none, true⟩, .add ⟨.int 40, .none, false⟩]
+    let c0 := final orc Core.init [.add ⟨.int 10, .none, true, false⟩, .add ⟨.int 40, .none, false, false⟩]
     let bad := (removeLate c0 0).1
     let good := (remove c0 0).1
     (removeLate c0 0).2 = .err .osError ∧ (remove c0 0).2 = .err .osError ∧
     bad.handlers.map (·.1) = [1] ∧ good.handlers.map (·.1) = [1] ∧
     (log orc bad (.int 20) (some "a".toList) true).2 = .delivered [] 1 ∧
     (log orc good (.int 20) (some "a".toList) true).2 = .delivered [] 0 := by
+  decide
+
+/-- (I6) after every history every colourising handler (colorize=True, string format) holds a pre-colourised
+format for every level that exists – built-in or created at run time, with or without a colour, before
+or after the handler – so `Handler.emit`'s `self._precolorized_formats[level_id]` never raises and a call
+by level NAME reaches the handler exactly like a call by number (this is part of `Sim`, i.e. what
+`dispatch_refines_spec` rests on) -/
+theorem precolorized_formats_total (orc : Oracle) (ops : List Op) (id : Nat) (n : Str) :
+    let c := final orc Core.init ops
+    (c.levels.lookup n).isSome = true → precolorOk c id (some n) = true := by
+  intro c hn
+  have hs := final_sim orc ops sim_init idInv_init
+  exact precolorOk_true hs.pcInv (fun m hm => by cases hm; exact hn) id
+
+/-- **Refuting witness for the shape "refresh the handlers' formats only if the colour changed"**: a
+colourising handler, then `level("NOTICE", no=25)` without a colour: with the stale shape a call by NAME
+is not delivered (KeyError inside emit) while the call by number 25 is; with the real `level` both are. -/
+theorem stale_precolorized_formats_refuted :
+    let orc : Oracle := fun _ _ _ => true
+    let notice := "NOTICE".toList
+    let c0 := final orc Core.init [.add ⟨.int 0, .none, false, true⟩]
+    let bad := (levelOpStale c0 notice (.int 25) false).1
+    let good := (levelOp c0 notice (.int 25) false).1
+    (log orc bad (.name notice) (some "a".toList) false).2 = .delivered [] 0 ∧
+    (log orc bad (.int 25) (some "a".toList) false).2 = .delivered [0] 0 ∧
+    (log orc good (.name notice) (some "a".toList) false).2 = .delivered [0] 0 ∧
+    (log orc good (.int 25) (some "a".toList) false).2 = .delivered [0] 0 := by
   decide
 
 /-- `filter="p"` (`p ≠ ""`): the handler accepts the record iff its module is `p` or inside package `p`
@@ -293,7 +320,7 @@ different deliveries -/
 example :
     let a := "a".toList; let ab := "a.b".toList; let info := LevelArg.name "INFO".toList
     run (fun _ _ _ => true) Core.init
-      [.add ⟨.int 20, .str a, false⟩, .add ⟨info, .none, false⟩, .log info (some ab) true, .activate (some a) false,
+      [.add ⟨.int 20, .str a, false, false⟩, .add ⟨info, .none, false, false⟩, .log info (some ab) true, .activate (some a) false,
        .log info (some ab) true, .activate (some ab) true, .log (.int 30) (some ab) false, .remove 0,
        .log info (some ab) true, .log (.int 19) (some ab) true]
     = [.id 0, .id 1, .delivered [0, 1] 1, .ok, .delivered [] 0, .ok, .delivered [0, 1] 0, .ok,
@@ -319,9 +346,9 @@ example :
 first failing sink and leaves the later handler registered -/
 example :
     run (fun _ _ _ => true) Core.init
-      [.add ⟨.int 10, .none, true⟩, .add ⟨.int 40, .none, false⟩, .remove 0,
+      [.add ⟨.int 10, .none, true, false⟩, .add ⟨.int 40, .none, false, false⟩, .remove 0,
        .log (.int 20) (some "a".toList) true, .log (.int 40) (some "a".toList) true,
-       .add ⟨.int 0, .none, true⟩, .add ⟨.int 5, .none, false⟩, .removeAll,
+       .add ⟨.int 0, .none, true, false⟩, .add ⟨.int 5, .none, false, false⟩, .removeAll,
        .log (.int 5) (some "a".toList) true, .removeAll, .log (.int 50) none true]
     = [.id 0, .id 1, .err .osError, .delivered [] 0, .delivered [1] 1, .id 2, .id 3, .err .osError,
        .delivered [3] 1, .ok, .delivered [] 0] := by decide
